@@ -39,6 +39,9 @@ type scenario struct {
 	Hops   []string          // urls in the order they are requested
 	Start  string
 	Run    func(start string) (gotDoc bool, err error, item any)
+	// Garbage: the response is not HTTP at all; delivered whole it must end in an error,
+	// and so must every prefix of it
+	Garbage bool
 	// BodyEnd[url] = offset just after the JSON object's closing brace (a cut at or after
 	// it has delivered the whole document)
 }
@@ -97,6 +100,16 @@ func scenarios() []scenario {
 	simple("trailing-garbage", resp("200 OK", ct, `{"a":1}   trailing bytes after the object`))
 	simple("big", resp("200 OK", ct, `{"pad":"`+strings.Repeat("z", 4000)+`"}`))
 	simple("lf-only", []byte("HTTP/1.0 200 OK\nContent-Type: application/json\n\n{\"lf\":true}"))
+	// peers that do not speak HTTP: a first line of text in another script (many bytes, few
+	// characters), of accented letters, of bytes that are no text at all, and a very long one
+	garbage := func(name string, raw []byte) {
+		simple(name, raw)
+		out[len(out)-1].Garbage = true
+	}
+	garbage("garbage-cjk", []byte(strings.Repeat("\u63a5\u7d9a\u3092\u62d2\u5426", 6)+"\r\nContent-Type: application/json\r\n\r\n{}"))
+	garbage("garbage-accents", []byte(strings.Repeat("\u00e9", 50)+"\n\n{}"))
+	garbage("garbage-bytes", []byte(strings.Repeat("\xff\xfe\x80", 40)+"\r\n\r\n{}"))
+	garbage("garbage-long-ascii", []byte(strings.Repeat("x", 300)+"\r\n\r\n{}"))
 	// redirect chain of three hops
 	c0, c1, c2 := h+"/chain0", h+"/chain1", h+"/chain2"
 	out = append(out, scenario{Name: "chain", Routes: map[string][]byte{
@@ -381,6 +394,12 @@ func runCase(r *ev.Report, sc scenario, f fault) {
 	if (f.Kind == "refuse" || f.Kind == "stall-connect") && err == nil && !(partOfItem(sc) && f.Hop == 1) {
 		r.Violation(key("no-error"), map[string]any{"case": c, "msg": "a failed connection produced no error"})
 	}
+	if sc.Garbage {
+		if err == nil {
+			r.Violation(key("garbage-accepted"), map[string]any{"case": c, "msg": "a response that is not HTTP produced no error"})
+		}
+		return
+	}
 	if f.Kind == "none" && err != nil {
 		if r.ViolationCount() > 0 {
 			// the real-socket part already has a verdict; the in-memory peer cannot bind
@@ -395,7 +414,7 @@ func runCase(r *ev.Report, sc scenario, f fault) {
 func main() {
 	envaDir := enva.Reexec()
 	r := ev.New("C05", "fault_enumeration",
-		"corpus of 12 exchanges (6 single responses incl. nested, trailing-garbage, 4 kB and LF-only; a 3-hop and a 7-hop redirect chain; a webfinger lookup; pub.New on an actor with an outbox, on a post with separately fetched replies and on a post with a separately fetched author, all then shown in full, as previews and with their children); "+
+		"corpus of 16 exchanges (6 single responses incl. nested, trailing-garbage, 4 kB and LF-only; 4 first lines that are not HTTP: CJK text, accented letters, bytes that are no text, 300 letters; a 3-hop and a 7-hop redirect chain; a webfinger lookup; pub.New on an actor with an outbox, on a post with separately fetched replies and on a post with a separately fetched author, all then shown in full, as previews and with their children); "+
 			"faults: cut after every byte k of every response with FIN, with RST and as a stall, trickle (one byte per 0.6 x timeout) from 3 start points, connection refused and connection stall, at every hop; "+
 			"virtual-time connections: a stalled read times out iff a deadline is armed; Env-A: one real-time case per stall stage (before/in status line, headers, after headers, body, trickle, truncated body, no TLS handshake) over real TLS with a 1 s timeout; distinct_nontrivial = fault points inside a response (not before byte 0 or after the last byte)")
 	if *ev.FlagReplay != "" {
